@@ -51,6 +51,22 @@ pub fn session_roots(seed: u64, n: usize) -> Vec<History> {
     let starts = workload::start_positions(seed, 40).unwrap_or_default();
     let mut rng = Rng::stream(seed, 0x5E55);
     let mut out = Vec::new();
+    // roots where a promotion can be answered by castling (a descriptor field inherited from the
+    // previous answer shows only in chains of go without a new position), and other special-move roots
+    for fen in [
+        "r3kb2/7P/8/8/8/8/8/4K3 w q -",
+        "2b1k2r/P7/8/8/8/8/8/4K3 w k -",
+        "4k3/8/8/8/8/8/7p/R3KB2 b Q -",
+        "4k3/8/8/8/8/8/p7/2B1K2R b K -",
+        "r3k2r/1P4P1/8/8/8/8/1p4p1/R3K2R w KQkq -",
+        "rnbqkbnr/ppp1pppp/8/8/3pP3/8/PPPP1PPP/RNBQKBNR b KQkq e3",
+        "4k3/PPP1P1PP/8/8/8/8/ppp1p1pp/4K3 w - -",
+    ] {
+        let p = Pos::parse_fen(fen).unwrap();
+        if is_legal_position(&p) && has_legal_move(&p) {
+            out.push(History { start: p.clone(), moves: vec![], end: p });
+        }
+    }
     let mut guard = 0;
     while out.len() < n && guard < n * 30 {
         guard += 1;
@@ -89,9 +105,10 @@ pub fn run_session(bin: &PathBuf, mode: &Mode, roots: &[History], seed: u64, sid
     };
     let mut go_count = 0u64;
     'outer: for _step in 0..steps {
-        let hist = &roots[rng.below(roots.len() as u64) as usize];
+        let special = rng.chance(1, 6);
+        let hist = if special { &roots[rng.below(7.min(roots.len() as u64)) as usize] } else { &roots[rng.below(roots.len() as u64) as usize] };
         s.position(hist);
-        let chain = 1 + rng.below(max_chain as u64) as usize;
+        let chain = if special { 2 + rng.below(3) as usize } else { 1 + rng.below(max_chain as u64) as usize };
         for ci in 0..chain {
             let cur = match &s.cur {
                 Some(p) => p.clone(),
@@ -101,7 +118,7 @@ pub fn run_session(bin: &PathBuf, mode: &Mode, roots: &[History], seed: u64, sid
             if legal.is_empty() {
                 break; // terminal positions belong to C08
             }
-            let args = go_args(&mut rng, cur.stm, 150);
+            let args = if special && rng.chance(3, 4) { String::new() } else { go_args(&mut rng, cur.stm, 150) };
             let mut g = s.go(&args, WATCHDOG);
             go_count += 1;
             acc.evaluations += 1;
